@@ -30,6 +30,17 @@
 namespace bloc
 {
 
+/* shift right by d, or to the other direction when d is negative; vacant bits
+ * are filled with zeros, and all bits are shifted out when |d| >= 64 */
+static Integer shift_right(Integer v, Integer d)
+{
+  if (d >= 64 || d <= -64)
+    return 0;
+  if (d >= 0)
+    return Integer((uint64_t)v >> d);
+  return Integer((uint64_t)v << (-d));
+}
+
 OpPUSExpression::~OpPUSExpression()
 {
   if (arg2)
@@ -75,7 +86,7 @@ Value& OpPUSExpression::value(Context& ctx) const
       {
         if (a1.isNull() || a2.isNull())
           return LVAL2(Value(Value::type_integer), a1, a2);
-        Value val(Integer(*a1.integer() >> *a2.integer()));
+        Value val(shift_right(*a1.integer(), *a2.integer()));
         return LVAL2(val, a1, a2);
       }
       default:
